@@ -397,7 +397,7 @@ def props_of(ev):
 # ------------------------------------------------------------------ workloads
 PUNCT = list(string.punctuation)
 SIGMA_C = PUNCT + ['\n', '\t', ' ', '0', '9', 'A', 'Z', 'a', 'z', 'b', 'y', '1', '8', '\r', '\x0b', '\x0c',
-                   'é', 'ß', '€', ' ', '\U0001F600', '\x00', '\x7f', '\xa0', '٣', 'İ']
+                   'é', 'ß', '€', ' ', '\U0001F600', '\x00', '\x7f', '\xa0', '٣', 'İ', '\U0010ffff', '\U0010fffe', '\x01']
 TOKNAMES = sorted(TOKENS)
 HOSTC = ['[', ']', '\\', '^', '-', '/', '$', '.', '(', '\n', 'a', 'b', 'c', 'z', '0', '+', '?', '{']
 
